@@ -272,6 +272,28 @@ def check_case(x, NW, k, nfft, method, sbf=False, fs=1.0, tag='', parts=('pmtm',
     return bad
 
 
+def check_default_k(x, NW, nfft, method):
+    """k omitted: pmtm and the class use the tapers dpss(N, NW) returns for an omitted k (one resolution of the default, in one place)"""
+    from spectrum import pmtm, dpss
+    from spectrum.mtm import MultiTapering
+    N = len(x)
+    v, e = dpss(N, NW)
+    r1 = pmtm(x, NW=NW, NFFT=nfft, method=method)
+    r2 = pmtm(x, e=e.copy(), v=v.copy(), NFFT=nfft, method=method)
+    bad = []
+    S1 = np.asarray(r1[0]); S2 = np.asarray(r2[0])
+    if S1.shape != S2.shape:
+        return [('default_k/pmtm', 'pmtm(x, NW=%r) uses %d tapers, dpss(N, NW=%r) returns %d' % (NW, S1.shape[0], NW, S2.shape[0]))]
+    if np.max(np.abs(S1 - S2)) > 1e-9 * max(np.max(np.abs(S2)), 1e-300) or not np.allclose(np.asarray(r1[2]), np.asarray(r2[2]), rtol=1e-12, atol=0):
+        bad.append(('default_k/pmtm', 'pmtm(x, NW=%r) with k omitted differs from pmtm with the tapers of dpss(N, NW=%r)' % (NW, NW)))
+    p = MultiTapering(x, NW=NW, NFFT=nfft, method=method, scale_by_freq=False); q = MultiTapering(x, e=e.copy(), v=v.copy(), NFFT=nfft, method=method, scale_by_freq=False)
+    a = np.asarray(p.psd); b = np.asarray(q.psd)
+    tol = 1e-9 if method != 'adapt' else 1e-6
+    if a.shape != b.shape or np.max(np.abs(a - b)) > tol * max(np.max(np.abs(b)), 1e-300):
+        bad.append(('default_k/MultiTapering', 'MultiTapering(x, NW=%r) with k omitted differs from the object given the tapers of dpss(N, NW=%r)' % (NW, NW)))
+    return bad
+
+
 def check_rerun(x, N, cfg1, cfg2):
     """the class result is the weighted mean for the CURRENT NW / k / method / tapers: run, change them, run again, compare with a fresh object"""
     from spectrum.mtm import MultiTapering
@@ -314,6 +336,8 @@ def replay(rep):
         x = np.asarray(x.real, dtype=float)
     if r.get('kind') == 'rerun':
         return not check_rerun(x, len(x), r['cfg1'], r['cfg2'])
+    if r.get('kind') == 'default_k':
+        return not check_default_k(x, r['NW'], r.get('NFFT'), r['method'])
     if r.get('dtype') == 'int64':
         x = x.astype(np.int64)
     return not check_case(x, r['NW'], r['k'], r.get('NFFT'), r['method'], sbf=r.get('scale_by_freq', False), fs=r.get('sampling', 1.0))
@@ -593,6 +617,20 @@ def run(ctx):
             bad = [('class_rerun/MultiTapering/raises', 'raised %r' % (e,))]
         for key, what in bad:
             ctx.violation(key, what, {'kind': 'rerun', 'x': vlib.hexv(x), 'complex': cplx, 'cfg1': c1, 'cfg2': c2})
+
+    # ---------------- k omitted, half-bandwidths whose doubled value is not an integer (2NW rounds up or down)
+    for it in range(ctx.q(18, 120)):
+        cplx = bool(it % 2); N = int(rng.integers(24, 129))
+        x = gen_data(rng, N, cplx, str(rng.choice(['noise', 'tone'])))
+        NW = float([1.75, 2.75, 3.3, 3.75, 2.25, 1.4, 2.5, 3.0, 3.2][it % 9]); method = METHODS[it % len(METHODS)]
+        nfft = [None, N + 3, 2 * N][int(rng.integers(0, 3))]
+        ctx.count('search/default_k/NW=%g' % NW); ctx.case(('default_k', x.tobytes(), NW, nfft, method), nontrivial=True)
+        try:
+            bad = check_default_k(x, NW, nfft, method)
+        except Exception as e:  # noqa
+            bad = [('default_k/raises', 'raised %r' % (e,))]
+        for key, what in bad:
+            ctx.violation(key, what, {'kind': 'default_k', 'x': vlib.hexv(x), 'complex': cplx, 'NW': NW, 'NFFT': nfft, 'method': method})
 
     # ---------------- results depend on the VALUES given only: call protocol (repeat, aliasing, buffer reuse, memory layout, integer / single-precision dtypes)
     from props import _purity
